@@ -42,7 +42,7 @@ PROPS = {
             "proved (Verus, all values, all instantiations): every ordered StableHash impl under contract appends exactly bytes(v) to the hasher, where bytes is a function of the value's VIEW (Vec: the element sequence, not capacity; Box/Rc/Arc/&: the pointee), and bytes is prefix-free, hence injective, per constructor",
             "LeImage (to_le_bytes is fixed-width and injective) is an axiom for the Verus unit; the exact little-endian bytes are established on the real code by the Kani harnesses le_*",
             "Discriminant<T>: the impl is unsafe raw-byte code (external_body): assumed to feed a fixed number of bytes that are equal exactly for the same variant (same compiler); axioms axiom_disc_*",
-            "str/String: bytes = utf8(view); str::len has no vstd spec (rule R14); strings are at most isize::MAX bytes; 64-bit usize",
+            "str/String: bytes = utf8(view); str::len has no vstd spec (rule R14); a VALUE of a string type holds at most isize::MAX bytes (axiom per value, not for arbitrary character sequences); 64-bit usize",
             "NOT under contract (rule R7: `sub_hash` takes dyn closures): HashMap/HashSet/BinaryHeap/DashMap/DashSet/ReadOnlyView -- covered only by the bounded run; also BTreeMap/BTreeSet/VecDeque/LinkedList (iterator models), Cow, RangeInclusive, Path/OsStr/CStr, atomics, FlexStr, SmallVec, BitVec, the SipHasher impl and SeededStableHasherBuilder",
             "write_f32/f64 (NaN normalisation) are not in the Verus unit (no float support): established full-domain by Kani",
         ],
@@ -124,6 +124,10 @@ PROPS = {
              "tiers": ("quick", "thorough"), "jobs": 12,
              "bound": "none: full-domain symbolic input, loops unrolled to operand width with unwinding assertions"},
         ],
+        "native": [
+            {"name": "real_backends_scan_and_point_reads", "bin": "replay_c11", "crate": "replay_db", "release": False, "tiers": ("thorough",), "thorough_seeds": 3, "timeout": 5400,
+             "bound": "the REAL RocksDB and Fjall backends (temporary directories): seeded random batches over prefix-related / empty / 0xFF-heavy / >32-bit keys, wide columns with both discriminant encodings and key-of-set columns, point reads and member scans compared with a reference map, before and after reopen; 3 seeds (builds RocksDB: about 3 minutes cold)"},
+        ],
         "witness": witness.c11,
         "assumptions": [
             "RocksDB / Fjall themselves are trusted: keys ordered by the bytewise comparator (lex_le/lex_lt of the spec), atomic batch write, iterate_upper_bound / prefix() semantics, visibility of committed data only, persistence across reopen",
@@ -157,7 +161,9 @@ PROPS = {
             "std collection / wrapper models listed in trusted_base (Cell, Duration, Vec::into_boxed_slice, Arc/Rc<[T]>::from(Vec), u8::from(bool), char::from_u32)",
             "decode contract is completeness on the encoder's image + exact consumption + image equality (w.bytes()==v.bytes()); value equality follows from injectivity of the image, proved for the primitive leaves (lemma_inj_*) and structural for the constructors",
             "c12_interned: WiredInterned<T> (the framing of interned handles) is an ordinary Wire type verified in both directions; `Encode for Interned<T>` is verified against a session-aware contract (SessionEncode, header-sub): source form iff (T::STABLE_TYPE_ID, content hash) was not yet in the session's seen-set, reference form (tag 1 + hash) otherwise. Stand-ins: Session::get_mut_or_default (typed slot borrow), Interner::hash_128 (a function of the value), Plugin::get (ASSUMED to hold the interner), Compact128 codec (derive shape verified in c12_derive), FxHashSet, obeys_key_model::<InternedID>. NOT decided deductively: that the decoder's interner still holds every referenced value when `get_from_hash::<T>` runs (shared interner behind &Plugin, Weak handles, inner encodes may touch the session) and the four Decode impls for Interned<..> -- covered by the bounded run only",
-            "not under contract: String/str/Path (UTF-8 byte reasoning), VecDeque/LinkedList/BTreeMap/BTreeSet/HashMap/HashSet/DashMap/DashSet (iterator models), Cow, RefCell, atomics, [T;N]::decode (MaybeUninit), SmallVec, BitVec",
+            "strings (rule R14): Encoder::emit_str / Decoder::read_str, Encode for str/String, Decode for String/Box<str>/Rc<str>/Arc<str> are under contract with image = LEB128 byte count + utf8(view). Trusted string model: utf8 is an uninterpreted injective function of the character sequence; str::as_bytes/str::len return utf8(view) and its length; String::from_utf8 accepts exactly the utf8 images; a VALUE of a string type holds at most isize::MAX bytes; into_boxed_str / Rc<str>::from / Arc<str>::from keep the characters",
+            "VecDeque: Decode under contract (vstd model of VecDeque); Encode for VecDeque iterates &VecDeque, for which vstd has no iterator model: bounded run only",
+            "not under contract: Path/PathBuf/OsStr, LinkedList/BTreeMap/BTreeSet/HashMap/HashSet/DashMap/DashSet (iterator models), Cow, RefCell, atomics, [T;N]::decode (MaybeUninit), SmallVec, BitVec",
             "derive macros: verified on the fixture types of fixtures/derive_fix (named/tuple/unit/generic structs, enums with unit/tuple/struct variants, generic enum, skip on first/middle/last positions), expanded on every run by the real proc-macro crate; other shapes are covered only in so far as the macro treats them uniformly",
             "rule R13: alpha-renaming of the derive's method type parameter (__E/__D -> E/D)",
         ],
